@@ -376,7 +376,8 @@ class HierarchicalCache:
         self._delete(node)  # _delete will delete the parent but not the children
         self.delete(path=new_path)  # renaming a nonexistent oid over an existing path should kick the target out of the tree
         if node:
-            self.__insert_node(node, new_path)
+            # file the node under the normalised path, as __make_node does (case-insensitive providers)
+            self.__insert_node(node, self._provider.normalize_path(new_path))
             self._check(node)
         return node
 
